@@ -23,33 +23,43 @@ LAYOUTS = [
     ('global 2..13/source zones', (2, 13), 3, (4, 9), (8, 13), 'source'),
     ('default-global/top of space', None, 0, (24, 31), (28, 31), 'source'),
     ('default-global/one shared address, one-address zone', None, 0, (4, 8), (8, 8), 'isa'),
+    ('default-global/names differing only in letter case', None, 0, (4, 9), (12, 15), 'source', ('zq', 'ZQ')),
+    ('default-global/a zone called global', None, 2, (4, 9), (12, 15), 'isa', ('za', 'global')),
 ]
 
 
+def names(lay):
+    """(name of the first zone, name of the second zone); zone names are case sensitive: za and ZA are two zones"""
+    return lay[6] if len(lay) > 6 else ('za', 'zb')
+
+
 def layout_params(lay):
-    name, g, origin, za, zb, where = lay
+    name, g, origin, za, zb, where = lay[:6]
+    na, nb = names(lay)
     zones = []
     if g is not None:
         zones.append({'name': 'GLOBAL', 'start': g[0], 'end': g[1]})
     if where == 'isa':
-        zones += [{'name': 'za', 'start': za[0], 'end': za[1]}, {'name': 'zb', 'start': zb[0], 'end': zb[1]}]
+        zones += [{'name': na, 'start': za[0], 'end': za[1]}, {'name': nb, 'start': zb[0], 'end': zb[1]}]
     return R.Params(address_size=AS, endian='little', origin=origin, zones=zones)
 
 
 def prelude(lay):
-    name, g, origin, za, zb, where = lay
+    name, g, origin, za, zb, where = lay[:6]
+    na, nb = names(lay)
     if where == 'source':
-        return [('create_memzone', 'za', za[0], za[1]), ('create_memzone', 'zb', zb[0], zb[1])]
+        return [('create_memzone', na, za[0], za[1]), ('create_memzone', nb, zb[0], zb[1])]
     return []
 
 
 def sigma(lay, i):
-    name, g, origin, za, zb, where = lay
+    name, g, origin, za, zb, where = lay[:6]
+    na, nb = names(lay)
     m = 0x41 + 3 * i
     return [
-        ('memzone', 'za'), ('memzone', 'zb'), ('memzone', 'GLOBAL'),
-        ('org', 1, 'za'), ('org', 0, 'zb'), ('org', za[1] - za[0], 'za'), ('org', 6, None), ('org', 1, 'GLOBAL'),
-        ('org', -1, 'za'),          # a negative zone-relative origin: below the zone, mostly still inside GLOBAL
+        ('memzone', na), ('memzone', nb), ('memzone', 'GLOBAL'),
+        ('org', 1, na), ('org', 0, nb), ('org', za[1] - za[0], na), ('org', 6, None), ('org', 1, 'GLOBAL'),
+        ('org', -1, na),          # a negative zone-relative origin: below the zone, mostly still inside GLOBAL
         ('data', 1, [m]), ('data', 1, [m, m + 1, m + 2]),
         ('zerountil', za[1]), ('zerountil', za[1] + 1),
         ('align', 4),
@@ -60,16 +70,16 @@ def sigma(lay, i):
 NSYM = 15
 
 
-def included(i):
+def included(i, lay=None):
     m = 0x41 + 3 * i
-    return [('data', 1, [m + 0x80]), ('memzone', 'zb'), ('data', 1, [m + 0x81])]
+    return [('data', 1, [m + 0x80]), ('memzone', names(lay)[1] if lay else 'zb'), ('data', 1, [m + 0x81])]
 
 
 def meta(tier):
     q = tier == 'quick'
     return {
-        'rule': 'every program over the 15-symbol zone alphabet up to the depth bound under 7 zone layouts (predefined / created in '
-                'source, default / redefined GLOBAL, nested / overlapping / adjacent zones, zones sharing exactly one address, a one-address zone, zones at the top of a 5-bit address '
+        'rule': 'every program over the 15-symbol zone alphabet up to the depth bound under 9 zone layouts (predefined / created in '
+                'source, default / redefined GLOBAL, nested / overlapping / adjacent zones, zones sharing exactly one address, a one-address zone, zone names differing only in letter case, a zone called global, zones at the top of a 5-bit address '
                 'space), plus every ill-formed declaration from the grid; expected: image of the reference layout, or rejection '
                 'iff a byte would lie outside its selected zone or GLOBAL (or two lines collide); non-trivial = program that '
                 'switches zone at least once and emits bytes in two zones, or that is rejected for leaving a zone; '
@@ -101,7 +111,7 @@ def shard(acc, tier, idx, n):
                 s = sigma(lay, i)[j]
                 stmts.append(s)
                 if s[0] == 'include':
-                    files[s[1]] = included(i)
+                    files[s[1]] = included(i, lay)
             stmts.append(('data', 1, [0x3F]))
             files['main.asm'] = stmts
             return files
